@@ -505,6 +505,10 @@ func genVarCase(r *RNG, id string, o varOpts) *Case {
 			_ = gi
 			rows = append(rows, gffRowsOf(g)...)
 		}
+		if r.Chance(1, 3) {
+			rows = sortRowsByStart(rows)
+			c.Tag("rows-sorted-by-start")
+		}
 		txt, proto := renderGFF(rows, genome, true, r.Chance(2, 3), refName)
 		annText = txt
 		c.Set("annfmt", "gff").Set("feats", "").Set("rows", proto)
